@@ -1,0 +1,78 @@
+//go:build verif
+
+// Contracts for package network (comment-only; see /verif/DESIGN.md).
+package network
+
+// ===================================================================================================
+// C18 - interceptors: each once, in registration order, before the transport; an error aborts.
+// Ghost trace events (see DESIGN.md): kind 1 = synchronous call of a function value (tr_fn, tr_arg, tr_err),
+// kind 2 = call through the wrapped http.RoundTripper (tr_recv = the transport, tr_arg = the request).
+// "stop" is the index of the first interceptor (>= index) that returned an error, or the number of interceptors.
+
+//@ define IC_LIST(s) = forall(k, 0, len(s.interceptors), s.interceptors[k] != nil && *s.interceptors[k] != nil)
+
+//@ func (SimpleHTTPDef).recursiveVisit
+//@   prop C18
+//@   opt callbacks=effectful
+//@   opt effects=trace
+//@   ghost stop Int
+//@   requires simpleHTTPSelf != nil && !untyped(simpleHTTPSelf.clientTransport) && 0 <= index && index <= len(simpleHTTPSelf.interceptors) && IC_LIST(simpleHTTPSelf)
+//@   ghostset stop = ite(index >= len(simpleHTTPSelf.interceptors), len(simpleHTTPSelf.interceptors), ite(tr_err[old(tr_len)] != nil, index, stop))
+//@   ensures range: index <= stop && stop <= len(simpleHTTPSelf.interceptors)
+//@   ensures passed: forall(k, index, stop, tr_kind[old(tr_len)+k-index] == 1 && tr_fn[old(tr_len)+k-index] == *simpleHTTPSelf.interceptors[k] && tr_arg[old(tr_len)+k-index] == boxed(request) && tr_err[old(tr_len)+k-index] == nil)
+//@   ensures aborted: stop < len(simpleHTTPSelf.interceptors) ==> tr_len == old(tr_len)+stop-index+1 && tr_kind[tr_len-1] == 1 && tr_fn[tr_len-1] == *simpleHTTPSelf.interceptors[stop] && tr_arg[tr_len-1] == boxed(request) && tr_err[tr_len-1] != nil && r1 == tr_err[tr_len-1] && r0 == nil
+//@   ensures transport: stop == len(simpleHTTPSelf.interceptors) ==> tr_len == old(tr_len)+stop-index+1 && tr_kind[tr_len-1] == 2 && tr_recv[tr_len-1] == simpleHTTPSelf.clientTransport && tr_arg[tr_len-1] == boxed(request) && r1 == tr_err[tr_len-1]
+
+//@ func (SimpleHTTPDef).RoundTrip
+//@   prop C18
+//@   opt callbacks=effectful
+//@   opt effects=trace
+//@   ghost stop Int
+//@   requires simpleHTTPSelf != nil && !untyped(simpleHTTPSelf.clientTransport) && IC_LIST(simpleHTTPSelf)
+//@   ensures range: 0 <= stop && stop <= len(simpleHTTPSelf.interceptors)
+//@   ensures passed: forall(k, 0, stop, tr_kind[old(tr_len)+k] == 1 && tr_fn[old(tr_len)+k] == *simpleHTTPSelf.interceptors[k] && tr_arg[old(tr_len)+k] == boxed(request) && tr_err[old(tr_len)+k] == nil)
+//@   ensures aborted: stop < len(simpleHTTPSelf.interceptors) ==> tr_len == old(tr_len)+stop+1 && tr_kind[tr_len-1] == 1 && tr_fn[tr_len-1] == *simpleHTTPSelf.interceptors[stop] && tr_arg[tr_len-1] == boxed(request) && tr_err[tr_len-1] != nil && r1 == tr_err[tr_len-1] && r0 == nil
+//@   ensures transport: stop == len(simpleHTTPSelf.interceptors) ==> tr_len == old(tr_len)+stop+1 && tr_kind[tr_len-1] == 2 && tr_recv[tr_len-1] == simpleHTTPSelf.clientTransport && tr_arg[tr_len-1] == boxed(request) && r1 == tr_err[tr_len-1]
+
+// the interceptor list is edited only through the persistent Stream operations (C04): the list after Add is the old list
+// followed by the new interceptors, and nothing that existed before is written (frame obligations)
+//@ func (SimpleHTTPDef).AddInterceptor
+//@   prop C18
+//@   modifies simpleHTTPSelf
+//@   requires simpleHTTPSelf != nil
+//@   ensures appended: len(simpleHTTPSelf.interceptors) == old(len(simpleHTTPSelf.interceptors)) + len(interceptors)
+//@   ensures others: simpleHTTPSelf.clientTransport == old(simpleHTTPSelf.clientTransport) && simpleHTTPSelf.lastTransport == old(simpleHTTPSelf.lastTransport) && simpleHTTPSelf.client == old(simpleHTTPSelf.client)
+//@ func (SimpleHTTPDef).AddInterceptor loop 0
+//@   invariant sofar: len(simpleHTTPSelf.interceptors) == old(len(simpleHTTPSelf.interceptors)) + _i
+//@   invariant others: simpleHTTPSelf.clientTransport == old(simpleHTTPSelf.clientTransport) && simpleHTTPSelf.lastTransport == old(simpleHTTPSelf.lastTransport) && simpleHTTPSelf.client == old(simpleHTTPSelf.client)
+
+//@ func (SimpleHTTPDef).ClearInterceptor
+//@   prop C18
+//@   modifies simpleHTTPSelf
+//@   requires simpleHTTPSelf != nil
+//@   ensures cleared: len(simpleHTTPSelf.interceptors) == 0
+//@   ensures others: simpleHTTPSelf.clientTransport == old(simpleHTTPSelf.clientTransport) && simpleHTTPSelf.lastTransport == old(simpleHTTPSelf.lastTransport) && simpleHTTPSelf.client == old(simpleHTTPSelf.client)
+
+// RemoveInterceptor: built from the persistent RemoveItem (C04); here only safety, the frame (nothing pre-existing is
+// written) and "the other fields are untouched" are proved - the element-level characterisation is not (see DESIGN.md)
+//@ func (SimpleHTTPDef).RemoveInterceptor
+//@   prop C18
+//@   modifies simpleHTTPSelf
+//@   requires simpleHTTPSelf != nil
+//@   ensures shrinks: len(simpleHTTPSelf.interceptors) <= old(len(simpleHTTPSelf.interceptors))
+//@   ensures others: simpleHTTPSelf.clientTransport == old(simpleHTTPSelf.clientTransport) && simpleHTTPSelf.lastTransport == old(simpleHTTPSelf.lastTransport) && simpleHTTPSelf.client == old(simpleHTTPSelf.client)
+//@ func (SimpleHTTPDef).RemoveInterceptor loop 0
+//@   invariant shrinks: len(simpleHTTPSelf.interceptors) <= old(len(simpleHTTPSelf.interceptors))
+//@   invariant others: simpleHTTPSelf.clientTransport == old(simpleHTTPSelf.clientTransport) && simpleHTTPSelf.lastTransport == old(simpleHTTPSelf.lastTransport) && simpleHTTPSelf.client == old(simpleHTTPSelf.client)
+
+// SetHTTPClient: the SimpleHTTP becomes the client's transport exactly once; the wrapped transport is never the SimpleHTTP itself
+//@ func (SimpleHTTPDef).SetHTTPClient
+//@   prop C18
+//@   modifies simpleHTTPSelf, client
+//@   requires simpleHTTPSelf != nil && client != nil
+//@   requires entry: untyped(simpleHTTPSelf.lastTransport) || (simpleHTTPSelf.lastTransport == boxed(simpleHTTPSelf) && !untyped(simpleHTTPSelf.clientTransport) && simpleHTTPSelf.clientTransport != boxed(simpleHTTPSelf))
+//@   requires not-prewrapped-by-other-means: client.Transport != boxed(simpleHTTPSelf) || simpleHTTPSelf.lastTransport == boxed(simpleHTTPSelf)
+//@   ensures installed: client.Transport == boxed(simpleHTTPSelf) && simpleHTTPSelf.lastTransport == boxed(simpleHTTPSelf) && simpleHTTPSelf.client == client
+//@   ensures wrapped: !untyped(simpleHTTPSelf.clientTransport) && simpleHTTPSelf.clientTransport != boxed(simpleHTTPSelf)
+//@   ensures idempotent: old(client.Transport) == boxed(simpleHTTPSelf) ==> simpleHTTPSelf.clientTransport == old(simpleHTTPSelf.clientTransport)
+//@   ensures list: simpleHTTPSelf.interceptors == old(simpleHTTPSelf.interceptors)
